@@ -55,7 +55,41 @@ func c02Decode(r *fw.R, in []byte, tag string) (accepted bool) {
 	if tag == "short-option" {
 		c02InsideInput(r, m, in, tag)
 	}
+	// the same input decoded into a Msg that has been used before (it holds a question, records in all three
+	// sections and an OPT from an earlier Unpack): what comes out may hold nothing of the earlier message
+	used := new(dns.Msg)
+	if err := used.Unpack(c02UsedMsgWire()); err != nil {
+		panic(err)
+	}
+	buf2 := make([]byte, len(in))
+	copy(buf2, in)
+	if err := used.Unpack(buf2); err != nil {
+		r.Fail("depends-on-previous-contents/"+tag, "accepted into a fresh Msg, rejected (%v) into a used one: %x", err, clipB(in))
+	} else if a, b := used.String(), m.String(); a != b {
+		r.Fail("depends-on-previous-contents/"+tag, "Unpack into a Msg that was used before gives another message than into a fresh one:\n%s\n--- fresh:\n%s\ninput %x", clip(a), clip(b), clipB(in))
+	}
 	return true
+}
+
+var c02UsedWire []byte
+
+// c02UsedMsgWire: a message with a question, one record per section and an OPT.
+func c02UsedMsgWire() []byte {
+	if c02UsedWire == nil {
+		m := new(dns.Msg)
+		m.SetQuestion("earlier.example.", dns.TypeMX)
+		m.Response = true
+		m.Answer = []dns.RR{&dns.MX{Hdr: dns.RR_Header{Name: "earlier.example.", Rrtype: dns.TypeMX, Class: 1, Ttl: 7}, Preference: 1, Mx: "mx.earlier.example."}}
+		m.Ns = []dns.RR{&dns.NS{Hdr: dns.RR_Header{Name: "example.", Rrtype: dns.TypeNS, Class: 1, Ttl: 7}, Ns: "ns.earlier.example."}}
+		m.Extra = []dns.RR{&dns.A{Hdr: dns.RR_Header{Name: "mx.earlier.example.", Rrtype: dns.TypeA, Class: 1, Ttl: 7}, A: []byte{192, 0, 2, 9}}}
+		m.SetEdns0(1232, true)
+		b, err := m.Pack()
+		if err != nil {
+			panic(err)
+		}
+		c02UsedWire = b
+	}
+	return c02UsedWire
 }
 
 // c02InsideInput: "records all lie inside the input" — the decoded message is a function of the input
